@@ -94,6 +94,49 @@ func checkC08(c *Ctx) {
 				}
 			}
 		})
+		// a message added to the list is announced on every path: the EXISTS
+		// is not optional (a batch of appends announced once leaves the
+		// earlier messages of the batch unannounced to stale sessions)
+		allInstrs(fn, func(i ssa.Instruction) {
+			st, ok := i.(*ssa.Store)
+			if !ok {
+				return
+			}
+			r, ok := fieldOf(st.Addr)
+			if !ok || !r.is("Mailbox", "l") || isFreshLocal(r.Base) {
+				return
+			}
+			call, ok := st.Val.(*ssa.Call)
+			if !ok {
+				return
+			}
+			if b, ok := call.Call.Value.(*ssa.Builtin); !ok || b.Name() != "append" || len(call.Call.Args) == 0 {
+				return
+			}
+			if r0, ok := loadedField(call.Call.Args[0]); !ok || !r0.is("Mailbox", "l") {
+				return // not a growth of the list itself (e.g. the rebuilt survivor list)
+			}
+			gf := mustFlow(fn, facts{}, func(f facts, j ssa.Instruction) facts {
+				if j == ssa.Instruction(st) {
+					return f.without(func(s string) bool { return s == "announced" })
+				}
+				if c2, ok := j.(ssa.CallInstruction); ok && callKey(c2) == "(*MailboxTracker).QueueNumMessages" {
+					return f.with("announced")
+				}
+				return f
+			}, nil)
+			okAll := true
+			for _, ret := range returnsOf(fn) {
+				if ret.Block() != st.Block() && !reaches(st.Block(), ret.Block()) {
+					continue
+				}
+				if fs, reach := gf.at(ret); reach && !fs.has("announced") {
+					okAll = false
+				}
+			}
+			c.check(okAll, "C08.c", fnKey(fn)+": every appended message is announced", st.Pos(), "QueueNumMessages follows the append on every path",
+				"a message is appended to the mailbox's list and, on some path, no EXISTS is queued for it: sessions that have not polled yet are later told a count that skips it, and the sequence numbers they are sent exceed the count they know")
+		})
 		c.check(len(queued) > 0 && held, "C08.c", fnKey(fn)+": list mutation queues a tracker update", pos,
 			"queues "+strings.Join(uniq(queued), ",")+" while holding the mailbox lock",
 			"the message list is modified without queueing the matching EXISTS/EXPUNGE in the tracker under the mailbox lock: other sessions' views silently diverge from the mailbox")
@@ -110,6 +153,8 @@ func checkC08(c *Ctx) {
 	ruleSentinelTests(c, "C08.l", "imapserver", "imapserver/imapmemserver")
 	c.rule("C08.m", "the connection's update writers put every update they are given on the wire", 2)
 	ruleUpdateWritersUnconditional(c, "C08.m")
+	c.rule("C08.n", "per-message callbacks of the backend receive the mailbox-view number, never one translated for a session", 1)
+	ruleCallbackGetsMailboxView(c, "C08.n")
 	// expungeLocked: per removed message exactly one QueueExpunge: the call and the "keep" append are the two arms of one test
 	if ex := p.Func("imapserver/imapmemserver", "Mailbox", "expungeLocked"); ex != nil {
 		okArms := false
